@@ -12,13 +12,15 @@ def run(ctx):
     bounded = c17c20.c20_bounded(ctx.seed, ctx.quick)
     ctx.std_flow(programs + bounded, 20000 if ctx.quick else 200000, "safety",
                  lambda impl: ctx.sc_check(programs, impl, 100000 if ctx.quick else 1000000)
-                 + ctx.sc_check(bounded, impl, 400000 if ctx.quick else 2000000, completeness=False, exact=True),
+                 + ctx.sc_check(bounded, impl, 400000 if ctx.quick else 2000000, completeness=False, exact=True)
+                 + ctx.spurious_oracle(programs + bounded, impl),
                  "one blocked future driven by future::block_on and 1-2 waking threads: wake by value / by reference / "
                  "through AtomicWaker / through clones the wakers keep, before, during and after poll and registration, "
                  "waker dropped without wake, only the flag set, a relaxed payload that reaches the future only through "
                  "the wake (two wakers, preemption-bounded), the same future driven by consecutive block_on calls while a "
                  "registration of the earlier call is still in the shared AtomicWaker (wake must reach the most recently "
                  "registered waker), two futures waking each other, nobody waking (deadlock expected); outcomes and verdicts "
-                 "must equal the reference (Spec/SC.lean: block_on as poll / register / re-check / wait phases); every "
+                 "must equal the reference (Spec/SC.lean: block_on as poll / register / re-check / wait phases); an execution "
+                 "takes at most one spurious return per block_on call (counted in its decision path); every "
                  "iteration replayed on the twin; non-trivial = more than one iteration")
     ctx.witness_check()
